@@ -2462,6 +2462,11 @@ class Norm:
             for p, _g, b in reversed(arms[:-1]):
                 r = _mk_if(_mk_cmp("==", scr, ("lit", p.strip("'"))), b, r)
             return r
+        if len(arms) == 2 and all(g is None for _p, g, _b in arms) and arms[0][0] in ("true", "false") and arms[1][0] in ("true", "false", "_", "$") \
+                and arms[0][0] != arms[1][0]:
+            # match c { true => a, false => b }  ==  if c { a } else { b }
+            a, b = (arms[0][2], arms[1][2]) if arms[0][0] == "true" else (arms[1][2], arms[0][2])
+            return _mk_if(scr, a, b)
         if len(arms) == 2 and all(g is None for _p, g, _b in arms) and {arms[0][0], arms[1][0]} == {"Entry::Occupied($)", "Entry::Vacant($)"}:
             # match m.entry(k) { Occupied(e) => e.into_mut(), Vacant(e) => e.insert(V) }  ==  m.entry(k).or_insert_with(|| V)
             ob = next(b for p, _g, b in arms if p == "Entry::Occupied($)")
@@ -3219,6 +3224,17 @@ class Norm:
                     return recv
                 if recv[0] == "call" and recv[1] == "then" and len(recv[2]) == 2:
                     return _mk_then(recv[2][0], _apply(args[0], recv[2][1]))          # c.then(|| v).map(f)  ==  c.then(|| f(v))
+            if name == "Iterator::take" and len(args) == 1 and recv[0] == "call" and recv[1] == "iter::repeat" and len(recv[2]) == 1:
+                # repeat(x).take(n)  ==  (0..n).map(|_| x): n times the same value
+                d = getattr(self, "_cur_depth", 0) + 1
+
+                def shift(n_):
+                    if n_[0] == "cparam" and n_[1] >= d:
+                        return ("cparam", n_[1] + 1, n_[2])
+                    if n_[0] == "closure" and n_[1] >= d:
+                        return ("closure", n_[1] + 1, n_[2], n_[3])
+                    return None
+                return ("call", "Iterator::map", [("struct", "ops::Range", "", {"start": ("lit", "0"), "end": args[0]}), ("closure", d, 1, rewrite(recv[2][0], shift))])
             if name == "ToTokens::to_tokens" and len(args) == 1:
                 x = recv if recv[0] == "tpl" and recv[1] == "quote" else ("tpl", "quote", "#0", [recv])
                 return _extend_over_match(args[0], x)     # x.to_tokens(ts)  ==  ts.extend(quote!(#x))
